@@ -98,13 +98,13 @@ pub fn plan_for(prop: &str, tier: &str) -> Option<Plan> {
             &["pingreq", "keepalive_timeout_disconnect"],
         ),
         "C11" => (
-            vec![prog(General, k(40_000)), prog(Sessions, k(20_000)), prog(Inbound, k(20_000)), enumerated(Scenario::FaultEnum(0), k(4_000))],
+            vec![prog(General, k(40_000)), prog(Sessions, k(20_000)), prog(Inbound, k(20_000)), enumerated(Scenario::FaultEnum(0), 241_920)],
             "fault_enumeration",
             "random programs in which every fatal result is followed by a random sequence of further operations on the same handle, plus the enumeration FaultEnum(0): for prepared pre-states x operation, the fault-free run is recorded and then every fault kind is injected at every I/O call index. oracle: is_connected/can_publish false, every operation Disconnected (disconnect Ok), I/O counters frozen. non-trivial = a dead-handle probe ran",
             &["dead_handle_probe"],
         ),
         "C12" => (
-            vec![prog(General, k(30_000)), prog(Sessions, k(30_000)), prog(Limits, k(10_000)), enumerated(Scenario::FaultEnum(1), k(4_000))],
+            vec![prog(General, k(30_000)), prog(Sessions, k(30_000)), prog(Limits, k(10_000)), enumerated(Scenario::FaultEnum(1), 241_920)],
             "fault_enumeration",
             "every explored history ends with connect() over a healthy transport to a conformant broker; FaultEnum(1) cuts prepared scenarios at every I/O call (error, cancel, drop, forget, inside the handshake) first. oracle: connect Ok, first packet a complete CONNECT, QoS 1 probe completes, inbound probe delivered. non-trivial = the final reconnect was attempted after a fault",
             &["final_reconnect_ok"],
@@ -122,7 +122,7 @@ pub fn plan_for(prop: &str, tier: &str) -> Option<Plan> {
             &["refused_packet_too_large", "outbound_exactly_at_max", "closed_because_ack_too_large"],
         ),
         "C15" => (
-            vec![enumerated(Scenario::FragTwin(0), k(3_000)), scn(Scenario::FragTwin(1), k(30_000))],
+            vec![enumerated(Scenario::FragTwin(0), 32_768), scn(Scenario::FragTwin(1), k(30_000))],
             "fault_enumeration",
             "FragTwin(0): all 2^(n-1) chunkings of short inbound streams (enumerated); FragTwin(1): random chunkings and partial-write patterns of long scripts; delivered messages, operation results and outbound bytes must equal the unfragmented run",
             &["twin_fragmented"],
@@ -134,7 +134,7 @@ pub fn plan_for(prop: &str, tier: &str) -> Option<Plan> {
             &["drain_with_pending"],
         ),
         "C17" => (
-            vec![scn(Scenario::AgeTwin, k(1_500)), prog(Aging, k(600))],
+            vec![scn(Scenario::AgeTwin, k(8_000)), prog(Aging, k(3_000))],
             "exploration",
             "ageing runs of up to 2000 operations (payloads empty to arena-filling, all ack orders, QoS 0 and reconnects in between) over arenas 16..4096; every retransmission equals the first transmission except DUP; AgeTwin: after everything is acknowledged a probe battery gives the same accept/refuse answers as on a brand-new session",
             &["aged_probe_battery", "retransmission_seen"],
@@ -146,15 +146,15 @@ pub fn plan_for(prop: &str, tier: &str) -> Option<Plan> {
             &["fresh_session", "ack_failure_code"],
         ),
         "C19" => (
-            vec![prog(Invalid, k(60_000)), prog(Limits, k(15_000)), enumerated(Scenario::Table, k(2_000))],
+            vec![prog(Invalid, k(60_000)), prog(Limits, k(15_000)), enumerated(Scenario::Table, 33_000)],
             "fault_enumeration",
             "27 property kinds x {publish, subscribe, unsubscribe, disconnect, will} x boundary values: the will column is enumerated in every Invalid run, Table enumerates the rest in random session states; random programs issue invalid requests at random points and check that nothing of them reaches the wire and that quiescence/can_publish/handles are unchanged; Maximum QoS x requested QoS x downgrade. non-trivial = an invalid-request probe was evaluated",
             &["invalid_probe_evaluated", "will_table_entry"],
         ),
         "C08" => {
-            exhaustive = !q;
+            exhaustive = false;
             (
-                vec![enumerated(Scenario::Bytes(0), if q { 65_536 + 256 } else { 16_843_008 }), scn(Scenario::Bytes(1), k(60_000)), enumerated(Scenario::Bytes(2), 12_000)],
+                vec![enumerated(Scenario::Bytes(0), if q { 131_586 } else { 33_686_018 }), scn(Scenario::Bytes(1), k(60_000)), enumerated(Scenario::Bytes(2), 43_008)],
                 "fault_enumeration",
                 "Bytes(0): every byte string of length <= 2 (quick) / <= 3 (thorough) fed through the transport before and after CONNACK; Bytes(2): every first byte x length-field forms x shorter/exact/longer body; Bytes(1): valid server packets of every type with random legal property sets, then mutated; oracle = reference classifier (valid => accepted with the values sent; listed malformations => invalid-packet error, dead handle, nothing acted upon, reconnect works; malformation inside a property block => left open; panic => violation)",
                 &["bytes_case"],
